@@ -41,9 +41,17 @@ def main():
         rc = mod.main(args.tier, seed)
     except SystemExit:
         raise
-    except BaseException:
+    except BaseException as exc:
         traceback.print_exc()
-        from mc.harness import CURRENT
+        from mc.harness import CURRENT, Check, RepoCrash, touches_repo
+
+        if isinstance(exc, RepoCrash) or (isinstance(exc, Exception) and touches_repo(exc.__traceback__)):
+            # an exception escaped from the repository's own code on an input the check drives it with:
+            # that is a failure of the code under test, reported with its trace
+            chk = CURRENT[0] if CURRENT else Check(pid, args.tier, seed)
+            what = str(exc) if isinstance(exc, RepoCrash) else "%s: %s | %s" % (type(exc).__name__, str(exc)[:200], "".join(traceback.format_tb(exc.__traceback__)[-4:])[-900:])
+            chk.violation({"sub": "uncaught-exception-in-repository-code", "what": what.split("|")[0][:80]}, {"trace": what}, {"trace": what})
+            sys.exit(chk.finish())
 
         found = [c for c in CURRENT if c.violations]
         if found:
